@@ -259,3 +259,53 @@ SCENARIOS = [
     Scenario("C04.folding.clear_unused_initializers", s_clear_unused_initializers, F("_clear_unused_initializers")),
     Scenario("C04.folding.call", s_call_resets_state, F("FoldConstantsPass.call", "FoldConstantsPass._reset")),
 ]
+
+
+def s_move_initializers(ctx):
+    """_move_initializers_to_graph (inlining a constant-condition If): every initializer of the branch ends up in the main
+    graph under a name that clashes neither with an existing initializer nor with another moved one; nothing is lost."""
+    import onnx_ir as ir
+    cf = _cf()
+    I = Interp(ctx)
+    names = ["w", "w_1", "w_2"]
+    src_names = [n for n in names if ctx.choose(2, f"branch has {n}") == 0]
+    dst_names = [n for n in names if ctx.choose(2, f"main graph has {n}") == 0]
+    src_vals = {}
+    for n in src_names:
+        v = SObj(ir.Value, "branch_" + n)
+        v.fields["name"] = n
+        src_vals[n] = v
+    dst_vals = {n: "main_" + n for n in dst_names}
+    src = SObj(ir.Graph, "branch")
+    src.fields["initializers"] = dict(src_vals)
+    dst = SObj(ir.Graph, "main")
+    dst_inits = dict(dst_vals)
+    dst.fields["initializers"] = dst_inits
+    failed = []
+
+    def reg(v):
+        raise AssertionError
+
+    def m_reg(interp, v):
+        nm = v.fields["name"]
+        if nm in dst_inits and dst_inits[nm] is not v:
+            failed.append(nm)
+            raise PyRaise(ValueError(f"initializer {nm} already registered"))
+        dst_inits[nm] = v
+    I.models[reg] = m_reg
+    dst.fields["register_initializer"] = reg
+    try:
+        I.run_closure(I.closure_of(cf._move_initializers_to_graph), [src, dst], {})
+    except PyRaise as e:
+        ctx.check("C04.folding.move_initializers.never_raises", False, "C04: 'return without raising'")
+        return
+    moved = [v for v in dst_inits.values() if isinstance(v, SObj)]
+    ctx.check("C04.folding.move_initializers.every_branch_initializer_moved", sorted(id(v) for v in moved) == sorted(id(v) for v in src_vals.values())
+              and src.fields["initializers"] == {}, "C04: 'nothing the result still references (initializer, function) has been removed'")
+    ctx.check("C04.folding.move_initializers.existing_initializers_untouched", all(dst_inits.get(n) == "main_" + n for n in dst_names), CL04)
+    ctx.check("C04.folding.move_initializers.names_unique_in_the_destination", all(dst_inits[v.fields["name"]] is v for v in moved),
+              "C04: 'value names are unique'")
+
+
+SCENARIOS.append(Scenario("C04.folding.move_initializers", s_move_initializers, F("_move_initializers_to_graph"), kind="bounded",
+                          bound="initializer names drawn from {w, w_1, w_2} in branch and main graph (all 64 combinations)"))
